@@ -58,6 +58,11 @@ DEP_HOOKS = [
      "after": "func NewInputStream(data string) *InputStream {",
      "insert": "\tif VerifInputHook != nil {\n\t\tVerifInputHook(data)\n\t}\n",
      "append": "\n// VerifInputHook observes the text handed to the lexer (/verif interception hook, overlay only).\nvar VerifInputHook func(string)\n"},
+    # gonum's map iterators (unsafe + go:linkname into the runtime) replaced by plain `range` loops with the
+    # same unexported interface and contract: harness/dep/gonum_iterator/map.go (C17)
+    {"module": "gonum.org/v1/gonum", "file": "graph/iterator/map.go", "replace": "dep/gonum_iterator/map.go", "must_contain": "func (it *mapIter) next() bool"},
+    {"module": "gonum.org/v1/gonum", "file": "graph/iterator/hiter_swiss.go", "replace": "dep/gonum_iterator/empty.go", "must_contain": "type hiter struct"},
+    {"module": "gonum.org/v1/gonum", "file": "graph/iterator/hiter_noswiss.go", "replace": "dep/gonum_iterator/empty.go", "must_contain": "type hiter struct"},
 ]
 _dep_overlay_cache = {}
 
@@ -73,11 +78,18 @@ def dep_overlay():
         r = subprocess.run(["go", "list", "-m", "-f", "{{.Dir}}", h["module"]], cwd=REPO_GO, env=GOENV, capture_output=True, text=True)
         moddir = r.stdout.strip()
         src = open(os.path.join(moddir, h["file"])).read()
+        if "replace" in h:
+            # whole-file replacement; the anchor guards against a dependency version with another layout
+            if h["must_contain"] not in src:
+                log("ENGINE-ERROR: dependency file %s no longer has the layout the overlay replaces" % h["file"])
+                sys.exit(2)
+            _dep_overlay_cache[os.path.join(moddir, h["file"])] = os.path.join(HARNESS, h["replace"])
+            continue
         if h["after"] not in src:
             log("ENGINE-ERROR: dependency hook anchor not found in %s" % h["file"])
             sys.exit(2)
         src = src.replace(h["after"], h["after"] + "\n" + h["insert"], 1) + h["append"]
-        out = os.path.join(d, "%d_%s" % (i, h["file"]))
+        out = os.path.join(d, "%d_%s" % (i, os.path.basename(h["file"])))
         open(out, "w").write(src)
         _dep_overlay_cache[os.path.join(moddir, h["file"])] = out
     return _dep_overlay_cache
@@ -779,6 +791,7 @@ FAMS = {
           "N: a = y | z | y and z | z and y, b = [user]|[user,employee] optionally `or b from p` (recursive), c = [user]|[user,employee] (48 models)"),
     "Q": ({"R": 3, "NEST0": 1, "L11": M(0, 1), "L12": M(0, 1, 2)},
           "Q: a = (A1 op1 A2) op (B1 op2 B2) with operands from {[user],[user,employee],y,z}, all 27 operator triples; b, c leaves (2592 models)"),
+    "W": ({"R": 2, "L10": M(0, 16, 19), "L20": M(16, 19), "L11": M(0, 16)}, "W: a = [user] | b | b from p, optionally op (b | b from p) - parallel lines between the same two nodes; b = [user] | a (38 models)"),
     "L": ({"R": 3, "L10": M(0, 4, 5, 9, 10, 16), "L11": M(0, 4, 5, 9, 10, 16, 17), "L12": M(0, 4, 5, 9, 10, 16, 17), "L22": M(16, 17), "OP2": 3},
           "L: three relations with multi-userset restrictions (interlocking tuple cycles)"),
 }
@@ -997,8 +1010,45 @@ def c12(tier):
     out.finish()
 
 
+# ---- C17: the plain gonum-backed graph
+C17_SCHED = dict(sched="all", sched_funcs=["parseModel"], sched_other="first", prune=True,
+                 sched_scope=["NewAuthorizationModelGraph", "AuthorizationModelGraph).Reversed", "AuthorizationModelGraph).GetDOT"],
+                 sched_deps=["mapIterKeysLines"], init_allow=["gonum.org/v1/gonum/graph/encoding/dot"])
+# small models: also the order in which gonum walks its node and edge maps (rotations)
+C17_WIDE = dict(sched="rot", sched_funcs=["parseModel"], sched_other="first", prune=True,
+                sched_scope=["AuthorizationModelGraph).Reversed"],
+                sched_deps=["mapIterKeys", "DirectedGraph).Edges"], init_allow=["gonum.org/v1/gonum/graph/encoding/dot"])
+
+
+def c17(tier):
+    def J(h, famname, pol=C17_SCHED, **extra):
+        return T("graph", h, dict(FAMS[famname][0], **extra), **pol)
+    q = tier == "quick"
+    jobs = [J("VerifC17_Faithful", "A"), J("VerifC17_Faithful", "B"), J("VerifC17_Faithful", "H"), J("VerifC17_Faithful", "J"), J("VerifC17_Faithful", "J5"), J("VerifC17_Faithful", "K"),
+            J("VerifC17_Reversed", "A", PAIRS=4, WINDOWS=3), J("VerifC17_Reversed", "W", PAIRS=4, WINDOWS=3), J("VerifC17_Reversed", "N", PAIRS=4, WINDOWS=3),
+            J("VerifC17_Stable", "W", C17_WIDE),
+            J("VerifC17_Stable", "A"), J("VerifC17_Stable", "B"), J("VerifC17_Stable", "N"),
+            J("VerifC17_Cycles", "A"), J("VerifC17_Cycles", "C"), J("VerifC17_Cycles", "H")]
+    if not q:
+        jobs += [J("VerifC17_Faithful", "Q"), J("VerifC17_Faithful", "G"), J("VerifC17_Faithful", "E"), J("VerifC17_Faithful", "L"), J("VerifC17_Faithful", "P"),
+                 J("VerifC17_Reversed", "C", PAIRS=4, WINDOWS=3), J("VerifC17_Reversed", "B", PAIRS=4, WINDOWS=3), J("VerifC17_Reversed", "H", PAIRS=4, WINDOWS=3), J("VerifC17_Stable", "A", C17_WIDE),
+                 J("VerifC17_Stable", "H"), J("VerifC17_Stable", "G"), J("VerifC17_Stable", "Q"),
+                 J("VerifC17_Cycles", "E"), J("VerifC17_Cycles", "B")]
+    out = engine_a_check("C17", tier, jobs,
+                         {"VerifC17_Faithful": ["built"], "VerifC17_Reversed": ["reversed", "paths"], "VerifC17_Stable": ["rendered"], "VerifC17_Cycles": ["acyclic", "compile-time-cycle", "other-cycle"]},
+                         ["models of the stated families only (type doc with relations a,b[,c] and tupleset p; user, employee terminal types; well-formed rewrites)",
+                          "gonum (multi.DirectedGraph, topo, encoding/dot) is executed as it is, except its map iterator: graph/iterator/map.go (unsafe + go:linkname into the runtime) is replaced, for the executor and for the native replay alike, by harness/dep/gonum_iterator/map.go - same unexported interface, entries produced in the order of a plain `range`",
+                          "schedule = every order of the relations map in parseModel and of every map of parallel lines gonum iterates inside NewAuthorizationModelGraph/Reversed/GetDOT, and ascending or descending ULIDs; the 'wide' jobs also rotate gonum's node and edge maps inside Reversed; other map iterations take insertion order",
+                          "ulid.Make = fresh distinct id; sort.Slice = stable insertion sort on the interpreted less function; regexp (DOT identifier quoting) evaluated by the host on concrete strings",
+                          "edge conditions are compared only through the reversal (the property does not state them for the build); classification of cycles other than pure computed ones is left open by the property",
+                          "path duality: all pairs of labels (sources in windows of PAIRS labels, every window explored when there are at most 12 labels) plus a label that does not exist"], "",
+                         repeat_native=40,
+                         bounds={"families": ", ".join(sorted(set(FAMILY_TEXT[n] for n in ("A", "B", "C", "H", "J", "J5", "K", "N", "W") + (() if q else ("Q", "G", "E", "L", "P")))))})
+    out.finish()
+
+
 REGISTRY = {"C01": c01, "C09": c09, "C19": c19, "C07": c07, "C12": c12, "C15": c15, "C18": c18, "C16": c16, "C14": c14, "C03": c03, "C02": c02, "C13": c13, "C08": c08,
-            "C04": c04, "C05": c05, "C06": c06, "C10": c10, "C11": c11}
+            "C04": c04, "C05": c05, "C06": c06, "C10": c10, "C11": c11, "C17": c17}
 
 
 def main():
